@@ -269,7 +269,7 @@ func (f File) Canonical() string {
 // ---------------------------------------------------------------------------
 // Statement alphabets
 
-var commentTexts = []string{"", " ", " c", " c d ", "#x", " é!"}
+var commentTexts = []string{"", " ", " c", " c d ", "#x", " é!", "!/usr/bin/env spok"}
 var strTexts = []string{"x", "a b", "é.go", "**/*.go", "", "./bin/x-1", `C:\temp\new`, `%s\t%d\n a\\b`, "#{}(),:=->task"}
 var cmdTexts = []string{"echo a", "echo {{.X}}", "a  b", "echo $X", "go test ./...", `echo "q" | tr a b > f`, `echo don't stop`, `echo 5\" x`, `echo {{ .X }}{{ .X }}/{{.X}}`}
 
@@ -392,6 +392,10 @@ func ReducedStatements(extNames bool) []Stmt {
 		{Kind: KTask, Name: "a", Deps: []Arg{s("x.go"), s("y.go")}, Outs: []Arg{s("")}, Cmds: []string{"echo a", "echo b"}},
 		{Kind: KTask, Name: "q", Deps: []Arg{s(`C:\new\table`)}, Cmds: []string{`echo don't stop`}},
 		{Kind: KAssign, Name: "W", Text: `%s\t%d\n`},
+		// the keyword as an ordinary identifier where no definition can start
+		{Kind: KTask, Name: "all", Deps: []Arg{id("task"), s("x.go")}, Outs: []Arg{id("task")}, Cmds: []string{"echo task"}},
+		{Kind: KAssign, Name: "Y", IsCall: true, Fn: "join", Args: []Arg{id("task"), s("bin")}},
+		{Kind: KComment, Text: "!/usr/bin/env spok"},
 		// paths that a tidy-minded formatter might want to clean, more than once over
 		{Kind: KTask, Name: "p", Deps: []Arg{s("src///pkg"), s("a/././b"), s("./c/.//./d")}, Outs: []Arg{s("x//./y"), s("../z/")}, Cmds: []string{"echo a//b/./c"}},
 		// long literals and names that agree in their first 15+ characters
